@@ -314,4 +314,287 @@ Proof.
   destruct (attribute_rt a [] Ha) as [_ Hb]. rewrite Hb. cbn [ibind]. rewrite (IH _ Hnd). reflexivity.
 Qed.
 
+(** ** tags *)
+Lemma body_stag : body G_xml nt_stag =
+  Map L_model_Element_from (SeqR (Tag [60]) (SeqL (Seq (NT nt_qname) (Many0 attr_item)) (Seq (Chars0 ws) (Tag [62])))).
+Proof. reflexivity. Qed.
+Lemma body_empty_tag : body G_xml nt_empty_entity_tag =
+  Map L_model_Element_from (SeqR (Tag [60]) (SeqL (Seq (NT nt_qname) (Many0 attr_item)) (Seq (Chars0 ws) (Tag [47;62])))).
+Proof. reflexivity. Qed.
+Lemma body_etag : body G_xml nt_etag = SeqR (Tag [60;47]) (SeqL (NT nt_qname) (Seq (Chars0 ws) (Tag [62]))).
+Proof. reflexivity. Qed.
+Lemma body_element : body G_xml nt_element =
+  Alt (NT nt_empty_entity_tag)
+      (Map L_closure_f7047233 (VerifyEq [Fst;InMap;Fst] [Snd;Snd] (Seq (NT nt_stag) (Seq (NT nt_content) (NT nt_etag))))).
+Proof. reflexivity. Qed.
+
+(** `<name attrs` up to the tail, shared by the two kinds of tag *)
+Lemma tag_open_rt (q : qname) (attrs : list attr) (t : str) : qname_ok q -> Forall attr_wf attrs -> tag_tail t ->
+  exists ta, P (Seq (NT nt_qname) (Many0 attr_item)) (d_qname q ++ d_attrs attrs ++ t) (TPair (tree_qname q) ta) t
+             /\ eval_tree ta = VList (map VAttribute (map un_attr attrs)).
+Proof.
+  intros Hq Ha Ht. destruct (yields_many0 _ _ _ _ (attrs_many t Ht attrs Ha)) as [ta [Hp He]].
+  exists ta. split; [|exact He]. eapply parses_seq; [|exact Hp].
+  apply parses_qname; [exact Hq|]. apply (proj1 (after_attr_stops t attrs Ht)).
+Qed.
+
+Lemma tree_eqb_qname q : tree_eqb (tree_qname q) (tree_qname q) = true.
+Proof. destruct q; cbn; rewrite ?str_eqb_refl; reflexivity. Qed.
+
+(** ** content *)
+Definition child_alt : pexpr :=
+  Alt (Map L_model_Contents_from (NT nt_element)) (Alt (Map L_model_Contents_from (NT nt_reference))
+  (Alt (Map L_model_Contents_from (NT nt_cdsect)) (Alt (Map L_model_Contents_from (NT nt_pi))
+       (Map L_model_Contents_from (NT nt_comment))))).
+Definition cell_expr : pexpr := Seq child_alt (Opt (NT nt_char_data)).
+
+Lemma body_content : body G_xml nt_content =
+  Map L_closure_11e3fda0 (Seq (Opt (NT nt_char_data)) (Many0 cell_expr)).
+Proof. reflexivity. Qed.
+
+(** where an element cannot start *)
+Lemma fails_element_no_lt (s : str) : prefix [60] s = None -> F (NT nt_element) s.
+Proof.
+  intros H. apply fails_nt. rewrite body_element. apply fails_alt.
+  - apply fails_nt. rewrite body_empty_tag. apply fails_map. apply fails_seqr_l. apply fails_tag. exact H.
+  - apply fails_map. apply fails_verify. apply fails_seq_l. apply fails_nt. rewrite body_stag. apply fails_map.
+    apply fails_seqr_l. apply fails_tag. exact H.
+Qed.
+
+Lemma fails_element_no_name (s : str) : stops (eval (is_name_start_char_except [58])) s -> F (NT nt_element) (60 :: s).
+Proof.
+  intros H. apply fails_nt. rewrite body_element. apply fails_alt.
+  - apply fails_nt. rewrite body_empty_tag. apply fails_map. eapply fails_seqr_r; [tag|].
+    apply fails_seql_l. apply fails_seq_l. apply fails_qname. exact H.
+  - apply fails_map. apply fails_verify. apply fails_seq_l. apply fails_nt. rewrite body_stag. apply fails_map.
+    eapply fails_seqr_r; [tag|]. apply fails_seql_l. apply fails_seq_l. apply fails_qname. exact H.
+Qed.
+
+Lemma fails_reference_lt (s : str) : F (NT nt_reference) (60 :: s).
+Proof.
+  apply fails_nt. rewrite body_reference. apply fails_alt.
+  - apply fails_nt. rewrite body_entity_ref. apply fails_map. apply fails_seqr_l. apply fails_tag. reflexivity.
+  - apply fails_nt. rewrite body_char_ref. apply fails_alt; apply fails_map; apply fails_seqr_l; apply fails_tag; reflexivity.
+Qed.
+
+Lemma fails_cdsect (s : str) : prefix [60;33;91;67;68;65;84;65;91] s = None -> F (NT nt_cdsect) s.
+Proof. intros H. apply fails_nt. rewrite body_cdsect. apply fails_map. apply fails_seqr_l. apply fails_tag. exact H. Qed.
+Lemma fails_pi (s : str) : prefix [60;63] s = None -> F (NT nt_pi) s.
+Proof. intros H. apply fails_nt. rewrite body_pi. apply fails_map. apply fails_seqr_l. apply fails_tag. exact H. Qed.
+Lemma fails_comment (s : str) : prefix [60;33;45;45] s = None -> F (NT nt_comment) s.
+Proof. intros H. apply fails_nt. rewrite body_comment. apply fails_map. apply fails_seqr_l. apply fails_tag. exact H. Qed.
+
+(** at `</` no further child starts *)
+Lemma child_alt_fails_etag (r : str) : F child_alt (60 :: 47 :: r).
+Proof.
+  unfold child_alt. repeat apply fails_alt; apply fails_map.
+  - apply fails_element_no_name. reflexivity.
+  - apply fails_reference_lt.
+  - apply fails_cdsect. reflexivity.
+  - apply fails_pi. reflexivity.
+  - apply fails_comment. reflexivity.
+Qed.
+
+(** the leaves of the element tree *)
+Definition leaf_wf (i : item) : Prop :=
+  match i with
+  | ItCData s => cdata_ok s
+  | ItCharRef t num r => reference_ok (RefChar num r) /\ exists c, char_from num r = IOk c /\ t = [c]
+  | ItComment s => comment_ok s
+  | ItPI p => pi_ok p
+  | ItUnexpanded e => name_ok (en_name e) /\ resolve_ref ents ext false (en_name e) = IOk e
+  | _ => False
+  end.
+
+Section CW.
+Variable Q : item -> Prop.
+Fixpoint children_wf (after_text : bool) (l : list item) : Prop :=
+  match l with
+  | [] => True
+  | ItText t :: l' => after_text = false /\ t <> [] /\ text_ok t /\ children_wf true l'
+  | c :: l' => Q c /\ children_wf false l'
+  end.
+End CW.
+
+Fixpoint item_wf (i : item) : Prop :=
+  match i with
+  | ItElement local prefix attrs children =>
+    qname_ok (mk_qname prefix local) /\ Forall attr_wf attrs /\ attrs_nodup [] (map un_attr attrs)
+    /\ children_wf item_wf false children
+  | ItText _ | ItDocType _ => False
+  | _ => leaf_wf i
+  end.
+
+Definition is_text (i : item) : bool := match i with ItText _ => true | _ => false end.
+
+(** what the induction provides for a child that is not text *)
+Definition child_rt (c : item) : Prop :=
+  forall r, exists x : contents,
+    yields child_alt (d_item false c ++ r) (VContents x) r
+    /\ build_child (build_element ents ext) ents ext x = IOk c.
+
+Definition element_rt (i : item) : Prop :=
+  forall r, exists e : element,
+    yields (NT nt_element) (d_item false i ++ r) (VElement e) r /\ build_element ents ext e = IOk i.
+
+Lemma d_pi_eq p : d_pi p = d_ppi p.
+Proof. unfold d_pi, d_ppi, s_lt_q, s_q_gt. destruct (pi_value p); reflexivity. Qed.
+
+Lemma child_rt_leaf (c : item) : leaf_wf c -> child_rt c.
+Proof.
+  intros Hc r. destruct c as [? ? ? ?|s|s|t num rd|s|p|e|d]; cbn [leaf_wf] in Hc; try contradiction; cbn [d_item].
+  - (* CDATA *) exists (CsCData s). split; [|reflexivity]. unfold child_alt.
+    unfold s_cdata_open, s_cdata_close. rewrite <- !app_assoc.
+    apply yields_alt_r; [apply fails_map; apply fails_element_no_name; reflexivity|].
+    apply yields_alt_r; [apply fails_map; apply fails_reference_lt|].
+    apply yields_alt_l. apply (yields_map' (VCData s)); [reflexivity|]. apply yields_cdsect. exact Hc.
+  - (* character reference *) destruct Hc as [Hr [c [Hc ->]]]. exists (CsReference (RefChar num rd)). split.
+    + unfold child_alt. pose proof (yields_reference (RefChar num rd) r Hr) as Hy.
+      assert (d_charref num rd = d_reference (RefChar num rd)) as -> by (destruct rd; reflexivity).
+      apply yields_alt_r.
+      * apply fails_map. apply fails_element_no_lt. destruct rd; reflexivity.
+      * apply yields_alt_l. apply (yields_map' (VReference (RefChar num rd))); [reflexivity|]. exact Hy.
+    + cbn [build_child]. rewrite Hc. reflexivity.
+  - (* comment *) exists (CsComment s). split; [|reflexivity]. unfold child_alt.
+    unfold s_comment_open, s_comment_close. rewrite <- !app_assoc.
+    apply yields_alt_r; [apply fails_map; apply fails_element_no_name; reflexivity|].
+    apply yields_alt_r; [apply fails_map; apply fails_reference_lt|].
+    apply yields_alt_r; [apply fails_map; apply fails_cdsect; reflexivity|].
+    apply yields_alt_r; [apply fails_map; apply fails_pi; reflexivity|].
+    apply (yields_map' (VComment s)); [reflexivity|]. apply yields_comment. exact Hc.
+  - (* PI *) exists (CsPI p). split; [|reflexivity]. unfold child_alt. rewrite d_pi_eq.
+    pose proof (yields_pi p r Hc) as Hy. unfold d_ppi in *. rewrite <- !app_assoc in *.
+    apply yields_alt_r; [apply fails_map; apply fails_element_no_name; reflexivity|].
+    apply yields_alt_r; [apply fails_map; apply fails_reference_lt|].
+    apply yields_alt_r; [apply fails_map; apply fails_cdsect; reflexivity|].
+    apply yields_alt_l. apply (yields_map' (VPI p)); [reflexivity|]. exact Hy.
+  - (* entity reference *) destruct Hc as [Hn Hr]. exists (CsReference (RefEntity (en_name e))). split.
+    + unfold child_alt. pose proof (yields_reference (RefEntity (en_name e)) r Hn) as Hy.
+      change (d_entref (en_name e)) with (d_reference (RefEntity (en_name e))).
+      apply yields_alt_r; [apply fails_map; apply fails_element_no_lt; reflexivity|].
+      apply yields_alt_l. apply (yields_map' (VReference (RefEntity (en_name e)))); [reflexivity|]. exact Hy.
+    + cbn [build_child]. rewrite Hr. reflexivity.
+Qed.
+
+Lemma child_rt_element (c : item) : is_element c = true -> element_rt c -> child_rt c.
+Proof.
+  intros _ H r. destruct (H r) as [e [Hy Hb]]. exists (CsElement e). split; [|exact Hb].
+  unfold child_alt. apply yields_alt_l. apply (yields_map' (VElement e)); [reflexivity|]. exact Hy.
+Qed.
+
+(** every non-text child prints something that starts with `<` or `&` *)
+Lemma d_item_head (c : item) : item_wf c -> exists t, d_item false c = 60 :: t \/ d_item false c = 38 :: t.
+Proof.
+  destruct c as [local prefix attrs children|s|s|t num rd|s|p|e|d]; cbn [item_wf leaf_wf d_item]; intros H; try contradiction.
+  - eexists. left. reflexivity.
+  - eexists. left. reflexivity.
+  - destruct rd; eexists; right; reflexivity.
+  - eexists. left. reflexivity.
+  - eexists. left. unfold d_pi, s_lt_q. reflexivity.
+  - eexists. right. reflexivity.
+Qed.
+
+Lemma d_item_length (c : item) : item_wf c -> (0 < length (d_item false c))%nat.
+Proof. intros H. destruct (d_item_head c H) as [t [-> | ->]]; cbn [length]; lia. Qed.
+
+Definition d_children (l : list item) : str := flat_map (d_item false) l.
+
+Lemma children_wf_true (Q : item -> Prop) l : children_wf Q true l ->
+  children_wf Q false l /\ match l with ItText _ :: _ => False | _ => True end.
+Proof.
+  destruct l as [|c l]; [cbn; auto|]. destruct c; cbn [children_wf]; try tauto.
+  intros [H _]. discriminate.
+Qed.
+
+(** text stops where the next child or the end tag starts *)
+Lemma stops_text_next (l : list item) (r : str) : children_wf item_wf true l ->
+  stops (eval (is_char_except [60;38])) (d_children l ++ 60 :: 47 :: r).
+Proof.
+  intros H. destruct (children_wf_true _ _ H) as [H1 H2]. destruct l as [|c l]; [reflexivity|].
+  assert (item_wf c) as Hc.
+  { destruct c; cbn [children_wf] in H1; try tauto. }
+  unfold d_children. cbn [flat_map]. destruct (d_item_head c Hc) as [t [-> | ->]]; reflexivity.
+Qed.
+
+Lemma text_ok_nil : text_ok [].
+Proof. split; reflexivity. Qed.
+
+Definition cell_val (c : contents * str) : val := VPair (VContents (fst c)) (VSome (VStr (snd c))).
+Definition cell_mk (c : contents * str) : cell := (fst c, Some (snd c)).
+
+Lemma cells_many (r : str) : forall n (l : list item), (length l <= n)%nat ->
+  children_wf item_wf true l -> Forall (fun c => is_text c = false -> child_rt c) l ->
+  exists cs : list (contents * str),
+    many_yields cell_expr (d_children l ++ 60 :: 47 :: r) (map cell_val cs) (60 :: 47 :: r)
+    /\ build_cells (build_element ents ext) ents ext (map cell_mk cs) = IOk l.
+Proof.
+  induction n as [|n IH]; intros l Hlen Hwf Hrt.
+  - destruct l; [|cbn in Hlen; lia]. exists []. split; [|reflexivity]. apply my_stop.
+    apply fails_seq_l. apply child_alt_fails_etag.
+  - destruct l as [|c l1].
+    + exists []. split; [|reflexivity]. apply my_stop. apply fails_seq_l. apply child_alt_fails_etag.
+    + destruct (children_wf_true _ _ Hwf) as [Hwf' Hnt].
+      assert (is_text c = false) as Hc by (destruct c; try reflexivity; contradiction).
+      inversion Hrt as [|c' l' Hrc Hrl]; subst.
+      assert (item_wf c /\ children_wf item_wf false l1) as [Hic Hl1].
+      { destruct c; cbn [children_wf] in Hwf'; try tauto; discriminate. }
+      (* the text that follows [c], possibly empty *)
+      assert (exists (t : str) l2, l1 = text_item (Some t) ++ l2 /\ text_ok t /\ children_wf item_wf true l2
+                                   /\ (length l2 <= n)%nat /\ Forall (fun c => is_text c = false -> child_rt c) l2)
+        as [t [l2 [E [Ht [Hl2 [Hn2 Hr2]]]]]].
+      { destruct l1 as [|c1 l1'].
+        - exists [], []. split; [reflexivity|]. split; [apply text_ok_nil|]. split; [exact I|]. split; [cbn; lia|constructor].
+        - destruct c1 as [? ? ? ?|t|?|? ? ?|?|?|?|?];
+            try (exists []; eexists; split; [reflexivity|]; split; [apply text_ok_nil|]; split; [exact Hl1|];
+                 split; [cbn [length] in *; lia|exact Hrl]).
+          cbn [children_wf] in Hl1. destruct Hl1 as [_ [Hne [Htok Hl2]]].
+          exists t, l1'. destruct t as [|x t]; [contradiction|]. cbn [text_item app].
+          split; [reflexivity|]. split; [exact Htok|]. split; [exact Hl2|].
+          split; [cbn [length] in *; lia|inversion Hrl; assumption]. }
+      destruct (IH l2 Hn2 Hl2 Hr2) as [cs [Hm Hb]].
+      destruct (Hrc Hc (t ++ d_children l2 ++ 60 :: 47 :: r)) as [x [Hy Hbx]].
+      exists ((x, t) :: cs). split.
+      * cbn [map]. subst l1. unfold d_children. cbn [flat_map]. rewrite flat_map_app.
+        assert (flat_map (d_item false) (text_item (Some t)) = t) as ->.
+        { destruct t; [reflexivity|]. cbn [text_item flat_map d_item]. apply app_nil_r. }
+        rewrite <- !app_assoc. fold (d_children l2).
+        eapply my_step; [| |exact Hm].
+        -- unfold cell_expr, cell_val. cbn [fst snd]. eapply yields_seq; [exact Hy|].
+           apply yields_opt_some. apply yields_str. apply parses_char_data; [exact Ht|].
+           apply stops_text_next. exact Hl2.
+        -- pose proof (d_item_length c Hic). rewrite (app_length (d_item false c)), (app_length t).
+           unfold str, char in *. lia.
+      * cbn [map build_cells cell_mk fst snd]. rewrite Hbx. cbn [ibind]. rewrite Hb. cbn [ibind]. subst l1. reflexivity.
+Qed.
+
+Theorem content_rt (l : list item) (r : str) : children_wf item_wf false l ->
+  Forall (fun c => is_text c = false -> child_rt c) l ->
+  exists (h : str) (cs : list (contents * str)) l1,
+    yields (NT nt_content) (d_children l ++ 60 :: 47 :: r) (VContent (Some h, map cell_mk cs)) (60 :: 47 :: r)
+    /\ build_cells (build_element ents ext) ents ext (map cell_mk cs) = IOk l1
+    /\ text_item (Some h) ++ l1 = l.
+Proof.
+  intros Hwf Hrt.
+  assert (exists (h : str) l1, l = text_item (Some h) ++ l1 /\ text_ok h /\ children_wf item_wf true l1
+                               /\ Forall (fun c => is_text c = false -> child_rt c) l1) as [h [l1 [E [Hh [Hl1 Hr1]]]]].
+  { destruct l as [|c l'].
+    - exists [], []. split; [reflexivity|]. split; [apply text_ok_nil|]. split; [exact I|constructor].
+    - destruct c as [? ? ? ?|t|?|? ? ?|?|?|?|?];
+        try (exists []; eexists; split; [reflexivity|]; split; [apply text_ok_nil|]; split; [exact Hwf|exact Hrt]).
+      cbn [children_wf] in Hwf. destruct Hwf as [_ [Hne [Htok Hl]]].
+      exists t, l'. destruct t as [|x t]; [contradiction|]. cbn [text_item app].
+      split; [reflexivity|]. split; [exact Htok|]. split; [exact Hl|inversion Hrt; assumption]. }
+  destruct (cells_many r (length l1) l1 (le_n _) Hl1 Hr1) as [cs [Hm Hb]].
+  exists h, cs, l1. repeat split; [|exact Hb|symmetry; exact E].
+  apply yields_nt. rewrite body_content.
+  apply (yields_map' (VPair (VSome (VStr h)) (VList (map cell_val cs)))); [apply al_content|].
+  subst l. unfold d_children. rewrite flat_map_app.
+  assert (flat_map (d_item false) (text_item (Some h)) = h) as ->.
+  { destruct h; [reflexivity|]. cbn [text_item flat_map d_item]. apply app_nil_r. }
+  rewrite <- app_assoc. fold (d_children l1).
+  eapply yields_seq.
+  - apply yields_opt_some. apply yields_str. apply parses_char_data; [exact Hh|]. apply stops_text_next. exact Hl1.
+  - apply yields_many0. exact Hm.
+Qed.
+
 End Elem.
